@@ -169,6 +169,8 @@ def run(ck):
     ck.rule("C05.loop-on-close", "HTTP1ServerConnection._server_request_loop: delegate.on_close(self) is passed on every path to either exit")
     ck.rule("C05.server-on-close", "HTTPServer.on_close removes the connection from the set close_all_connections loops on; connections are added before serving starts")
     ck.rule("C05.close-order", "HTTP1ServerConnection.close closes the stream before awaiting the serving future; close_all_connections awaits conn.close() while the set is non-empty")
+    ck.rule("C05.wait-close-callback", "while waiting for the application's response a disconnect is delivered: the stream close callback is armed after the body was read and before the wait; it invokes the application's callback by take-and-clear and ends the wait")
+    ck.rule("C05.loop-exits-on-error", "the per-connection serving loop terminates when reading a request fails or returns false, so that close_all_connections completes")
     ck.rule("C05.forward", "forwarding delegates call the same-named terminal method of the wrapped delegate exactly once on every normal path")
     ck.rule("C05.terminal-siblings", "every HTTPMessageDelegate implementation that overrides finish also overrides on_connection_close (and vice versa)")
 
@@ -204,6 +206,45 @@ def run(ck):
     sc = ck.func(H1, "HTTP1ServerConnection.close")
     nb = require_before(ck, "C05.close-order", sc, lambda n: n.suspends, node_calls("self.stream.close"), "stream closed before awaiting the serving future")
     ck.floor("C05.close-order", nb, 1, "awaits in HTTP1ServerConnection.close")
+
+    # close while waiting for the response: the stream close callback is armed only after the whole
+    # request was read (before that a close surfaces as StreamClosedError inside the try and is reported
+    # through the flag), and before the wait
+    nreg = 0
+    regs = [(n, c) for n, c in call_sites(fi, "self.stream.set_close_callback") if c.args and q.dotted(c.args[0]) == "self._on_connection_close"]
+    rf = event_facts(fi, {"rf": lambda n: n.kind == "stmt" and isinstance(n.ast, ast.Assign) and "self._read_finished" in q.assigned_paths(n.ast) and isinstance(n.ast.value, ast.Constant) and n.ast.value.value is True}, cond_facts=False)
+    for node, c in regs:
+        nreg += 1
+        ck.ob("C05.wait-close-callback", fi, c, ("@rf", True) in rf[node.id], "the connection's close callback is registered on the stream only after the request body was read (self._read_finished = True)")
+    waits = [n for n in fi.cfg.stmt_nodes(lambda n: n.suspends and any(isinstance(x, ast.Await) and q.dotted(x.value) == "self._finish_future" for x in q.walk_local(n.ast)))]
+    reg_ev = event_facts(fi, {"reg": lambda n: any(n is m for m, _ in regs)}, cond_facts=False)
+    for w in waits:
+        nreg += 1
+        ck.ob("C05.wait-close-callback", fi, w.ast, ("@reg", True) in reg_ev[w.id], "waiting for the response (await self._finish_future) happens with the close callback registered, so a disconnect ends the wait")
+    ck.floor("C05.wait-close-callback", nreg, 2, "registration/wait sites")
+    occ = ck.func(H1, "HTTP1Connection._on_connection_close")
+    from ..rules import check_take_and_clear, check_settles
+    ntc = check_take_and_clear(ck, "C05.wait-close-callback", occ, "self._close_callback", "the application's close callback is taken and cleared before it is invoked (at most once)")
+    ck.floor("C05.wait-close-callback", ntc, 1, "uses of self._close_callback in _on_connection_close")
+    ns = check_settles(ck, "C05.wait-close-callback", occ, "self._finish_future")
+    ck.floor("C05.wait-close-callback", ns, 1, "settles of _finish_future in _on_connection_close (a disconnect must end the wait)")
+
+    # the serving loop ends when the connection is gone: every handler around read_response leaves the loop
+    nh = 0
+    for t in [x for x in q.walk_body(loop.node) if isinstance(x, ast.Try)]:
+        if not any(q.is_call(c, ".read_response") for st in t.body for c in q.calls(st)):
+            continue
+        for h in t.handlers:
+            nh += 1
+            last = h.body[-1]
+            ck.ob("C05.loop-exits-on-error", loop, h, isinstance(last, (ast.Return, ast.Raise)) and not any(isinstance(x, ast.Continue) for st in h.body for x in ast.walk(st)),
+                  "an error while reading a request ends the serving loop (handler ends in return/raise)", construct="except %s" % ",".join(q.handler_names(h)))
+    ck.floor("C05.loop-exits-on-error", nh, 2, "handlers around read_response")
+    stops = [n for n in loop.cfg.stmt_nodes(lambda n: n.kind == "test" and q.dotted(n.ast) is not None)]
+    facts_l = must_facts(loop.cfg)
+    rets = [n for n in loop.cfg.stmt_nodes(lambda n: n.kind == "stmt" and isinstance(n.ast, ast.Return))]
+    ck.ob("C05.loop-exits-on-error", loop, loop.node, any(any(pol is False and t.isidentifier() for t, pol in facts_l[r.id]) for r in rets),
+          "a false result of read_response (connection closed or to be closed) ends the serving loop", construct="if not ret: return")
 
     # adapters
     nf = 0
@@ -262,6 +303,35 @@ def _move_true_after_headers(root):
     return False
 
 
+def _move_stmt_before(root, pick, anchor):
+    """Move the first statement matching ``pick`` (searched anywhere) to just before the first
+    statement matching ``anchor``."""
+    picked = None
+    for node in ast.walk(root):
+        for fld in ("body", "orelse", "finalbody"):
+            body = getattr(node, fld, None)
+            if isinstance(body, list):
+                for i, st in enumerate(body):
+                    if picked is None and isinstance(st, ast.stmt) and pick(st):
+                        picked = st
+                        if len(body) == 1:
+                            body[i] = ast.Pass()
+                        else:
+                            del body[i]
+                        break
+    if picked is None:
+        return False
+    for node in ast.walk(root):
+        for fld in ("body", "orelse", "finalbody"):
+            body = getattr(node, fld, None)
+            if isinstance(body, list):
+                for i, st in enumerate(body):
+                    if isinstance(st, ast.stmt) and anchor(st):
+                        body.insert(i, picked)
+                        return True
+    return False
+
+
 def _on_close_out_of_finally(root):
     for node in ast.walk(root):
         if isinstance(node, ast.Try) and node.finalbody and "on_close" in ast.unparse(node.finalbody[0]):
@@ -279,5 +349,10 @@ MUTANTS = [
     ("_ProxyAdapter.finish does not forward", _in("tornado/httpserver.py", "_ProxyAdapter.finish", remove_stmts(lambda st: "delegate.finish" in ast.unparse(st))), "C05.forward"),
     ("_GzipMessageDelegate.on_connection_close forwards twice", _in(H1, "_GzipMessageDelegate.on_connection_close", replace_stmt(lambda st: isinstance(st, ast.Return), lambda st: [parse_stmt("self._delegate.on_connection_close()"), st])), "C05.forward"),
     ("HTTPServer.on_close forgets to remove", _in("tornado/httpserver.py", "HTTPServer.on_close", replace_stmt(lambda st: "remove" in ast.unparse(st), lambda st: [ast.Pass()])), "C05.server-on-close"),
+    ("close callback registered before the body is read", _in(H1, "HTTP1Connection._read_message", lambda root: _move_stmt_before(root, lambda st: "set_close_callback(self._on_connection_close)" in ast.unparse(st) and isinstance(st, ast.Expr), lambda st: isinstance(st, ast.Assign) and "skip_body" in ast.unparse(st.targets[0]))), "C05.wait-close-callback"),
+    ("_on_connection_close calls the callback without clearing it", _in(H1, "HTTP1Connection._on_connection_close", remove_stmts(lambda st: isinstance(st, ast.Assign) and "self._close_callback" in q.assigned_paths(st))), "C05.wait-close-callback"),
+    ("_on_connection_close does not end the wait", _in(H1, "HTTP1Connection._on_connection_close", remove_stmts(lambda st: isinstance(st, ast.If) and "_finish_future" in ast.unparse(st.test))), "C05.wait-close-callback"),
+    ("serving loop swallows StreamClosedError and continues", _in(H1, "HTTP1ServerConnection._server_request_loop", replace_stmt(lambda st: isinstance(st, ast.Return) and st.value is None, lambda st: [ast.Continue()])), "C05.loop-exits-on-error"),
+    ("serving loop ignores a false read_response result", _in(H1, "HTTP1ServerConnection._server_request_loop", remove_stmts(lambda st: isinstance(st, ast.If) and isinstance(st.test, ast.UnaryOp) and isinstance(st.body[0], ast.Return))), "C05.loop-exits-on-error"),
     ("await serving future before closing stream", _in(H1, "HTTP1ServerConnection.close", remove_stmts(lambda st: "self.stream.close" in ast.unparse(st))), "C05.close-order"),
 ]
